@@ -30,6 +30,9 @@ def main():
     sh(["git", "-C", REPO, "worktree", "add", "--detach", wt, "HEAD"])
     results_path = os.path.join(SEEDED, "RESULTS.json")
     results = json.load(open(results_path)) if os.path.exists(results_path) else {}
+    # evidence files describe runs on the unchanged tree: keep them, restore them afterwards
+    ev_keep = f"/tmp/seedcheck_ev_{os.getpid()}"
+    shutil.copytree(os.path.join(ROOT, "evidence"), ev_keep)
     try:
         for name in names:
             d = os.path.join(SEEDED, name)
@@ -70,6 +73,9 @@ def main():
                   f"confirmed={r.get('confirmed')} {r['wall']}s")
             json.dump(results, open(results_path, "w"), indent=1, sort_keys=True)
     finally:
+        shutil.rmtree(os.path.join(ROOT, "evidence"), ignore_errors=True)
+        shutil.copytree(ev_keep, os.path.join(ROOT, "evidence"))
+        shutil.rmtree(ev_keep, ignore_errors=True)
         sh(["git", "-C", REPO, "worktree", "remove", "--force", wt])
         shutil.rmtree(wt, ignore_errors=True)
         shutil.rmtree(os.path.join(ROOT, "replays"), ignore_errors=True) if os.environ.get("SEEDED_CLEAN_REPLAYS") else None
